@@ -204,6 +204,16 @@ def replay_all(case):
         got = _call(icf, mat[:, 0], infra, lin, at, rt)
         if got != want and got != got_ut:
             mismatch("utils", "infrastructure_constraints_feasible(1-D rates)", got, "1-D-input")
+    # --- the same schedule at the end of a long horizon (PeriodLocal: the verdict is a conjunction over periods, so
+    # 1100 idle periods in front change nothing; plans of more than a thousand periods are ordinary: a day in minutes)
+    if h % 16 == 0 and T >= 1:
+        long_mat = np.concatenate([np.zeros((S, 1100)), mat], axis=1)
+        got = _call(net.is_feasible, long_mat, linear=lin, violation_tolerance=at, relative_tolerance=rt)
+        if got != want and got != got_net:
+            mismatch("network", "ChargingNetwork.is_feasible(1100 idle periods first)", got, "long-horizon")
+        got = _call(icf, long_mat, infra, lin, at, rt)
+        if got != want and got != got_ut:
+            mismatch("utils", "infrastructure_constraints_feasible(1100 idle periods first)", got, "long-horizon")
     # --- conservativeness, witnessed on the real code alone -----------------------------------------
     # (the spec is exact: feasP False means the phasor magnitude really exceeds limit + tolerance)
     if lin and not case["feasP"] and mat.size and (mat >= 0).all():
